@@ -4,7 +4,7 @@ from __future__ import annotations
 import ast
 import builtins
 
-from ..symex import Sym, T, SList, Engine, show, early_exits
+from ..symex import Sym, T, SList, Engine, show, early_exits, gname
 from ..loader import AnalysisError, FuncInfo, loc
 from ..report import RuleResult
 
@@ -386,7 +386,7 @@ def rule_attach(P) -> RuleResult:
     if fi.params[:5] != list(args):
         raise AnalysisError(f'{fi.fq}: parameters changed: {fi.params}')
     n = 0
-    for p in Engine(P).paths(fi, dict(args)):
+    for p in Engine(P, inline_generators='lazy').paths(fi, dict(args)):
         if p.outcome == 'raise':
             continue
         n += 1
@@ -433,4 +433,106 @@ def rule_attach(P) -> RuleResult:
                     'options': 'updated from this ledger', 'errors': 'extended from this ledger'})
     if n < 2:
         raise AnalysisError(f'{fi.fq}: expected the two cases (file name present / absent) on terms, found {n}')
+    return res
+
+
+# ----------------------------------------------------------------------
+# R-TYPEDCOLS (C11): the columns of the typed tables and structures read the field they are named after
+
+def rule_typedcols(P) -> RuleResult:
+    """sources.beancount on terms.  GetAttrColumn(name, dtype) evaluates to the attribute `name` of the row it is given, and
+    GetItemColumn(key, dtype) to item `key`; _typed_namedtuple_to_columns(cls, renames) makes one column per annotated field, in field
+    order, published under renames.get(field, field), reading *that field* (not the published name), announced with the field's type -
+    Optional[T] unwrapped to T, a parametrised generic to its origin, the `meta` dict to Metadata."""
+    res = RuleResult('R-TYPEDCOLS')
+    res.exhaustive = True
+    m = P.module('beanquery.sources.beancount')
+    ROW, SELF = Sym('ROW'), Sym('COLUMN')
+    for cname, field, want in (('GetAttrColumn', 'name', lambda v, key: v in (T('call', ('getattr', (ROW, key), ())), T('attr', (ROW, key)))),
+                               ('GetItemColumn', 'key', lambda v, key: v == T('item', (ROW, key)) or v == T('call', (f'{show(ROW)}.__getitem__', (key,), ())))):
+        ci = m.classes.get(cname)
+        if ci is None or '__init__' not in ci.methods or '__call__' not in ci.methods:
+            raise AnalysisError(f'anchor vanished: sources.beancount.{cname}')
+        init, call = ci.methods['__init__'], ci.methods['__call__']
+        KEY, DT = Sym('KEY'), Sym('DTYPE')
+        heap = {}
+        supers = []
+
+        def on_call_i(fn, fv, rc, a, k, ex, nd):
+            if str(fn).endswith('__init__'):
+                supers.append(tuple(a))
+                return None
+            return NotImplemented
+        for p in Engine(P, on_call=on_call_i, max_depth=0).paths(init, {'self': SELF, init.params[1]: KEY, init.params[2]: DT}):
+            heap.update(p.heap)
+
+        def on_attr(base, attr, ex, _h=heap):
+            v = _h.get(T('attr', (base, attr)))
+            return v if v is not None else NotImplemented
+        ok = True
+        if not supers or DT not in supers[-1]:
+            ok = False
+            res.fail(init.fq, 'typedcols:dtype', f'{cname}(key, dtype) must announce dtype (pass it to the column base class); it passes '
+                     f'{[show(x) for x in (supers[-1] if supers else ())]}', loc(init))
+        for p in Engine(P, on_attr=on_attr).paths(call, {'self': SELF, call.params[1]: ROW}):
+            if p.outcome != 'return' or p.decisions or not want(p.value, KEY):
+                ok = False
+                res.fail(call.fq, 'typedcols:access', f'{cname}(key, dtype) evaluated on a row is '
+                         f'{"the attribute" if cname == "GetAttrColumn" else "the item"} `key` of that row; it gives `{show(p.value)[:80]}`', loc(call))
+        if ok:
+            res.ok({'class': cname, 'value': 'getattr(row, key)' if cname == 'GetAttrColumn' else 'row[key]', 'announces': 'the dtype given'})
+    fi = m.toplevel_funcs.get('_typed_namedtuple_to_columns')
+    if not fi:
+        raise AnalysisError('anchor vanished: _typed_namedtuple_to_columns')
+    fi = fi[-1]
+    TA, OPTB, TB, NT, GEN, ORIGIN = Sym('TYPE_A'), Sym('OPTIONAL_TYPE_B'), Sym('TYPE_B'), Sym('NONETYPE'), Sym('GENERIC_OF_X'), Sym('ORIGIN_OF_GENERIC')
+    UNION = T('global', ('typing.Union',))
+    DICT = T('global', ('dict',))
+    CLS = Sym('NAMEDTUPLE')
+
+    def on_call(fn, fv, rc, a, k, ex, nd):
+        f = str(fn)
+        if f.endswith('get_type_hints'):
+            return SList([('field_a', TA), ('field_b', OPTB), ('field_c', GEN), ('meta', DICT)], kind='dict')
+        if f.endswith('get_origin'):
+            return {OPTB: UNION, GEN: ORIGIN}.get(a[0])
+        if f.endswith('get_args'):
+            return T('tuple', (TB, NT)) if a[:1] == (OPTB,) else T('tuple', ())
+        if f == 'type' and tuple(a) == (None,):
+            return NT
+        if f.split('.')[-1] == 'GetAttrColumn':
+            return T('new', ('GetAttrColumn', tuple(a) + tuple(v for _, v in k)))
+        return NotImplemented
+
+    def oracle(t, ex):
+        if isinstance(t, T) and t.op == 'cmp' and t.args[0] in ('is', 'is not') and UNION in t.args[1:]:
+            other = t.args[1] if t.args[2] == UNION else t.args[2]
+            same = other == UNION
+            return same if t.args[0] == 'is' else not same
+        if isinstance(t, T) and t.op == 'cmp' and t.args[0] in ('is', 'is not', '==', '!=') and DICT in t.args[1:]:
+            other = t.args[1] if t.args[2] == DICT else t.args[2]
+            same = other == DICT
+            return same if t.args[0] in ('is', '==') else not same
+        return None
+    for ren_label, ren in (('no renames', None), ('field_a published as renamed_a', SList([('field_a', 'renamed_a')], kind='dict'))):
+        name_a = 'renamed_a' if ren is not None else 'field_a'
+        want = [(name_a, T('new', ('GetAttrColumn', ('field_a', TA)))), ('field_b', T('new', ('GetAttrColumn', ('field_b', TB)))),
+                ('field_c', T('new', ('GetAttrColumn', ('field_c', ORIGIN)))), ('meta', None)]
+        n = 0
+        for p in Engine(P, on_call=on_call, oracle=oracle, max_paths=16).paths(fi, {fi.params[0]: CLS, fi.params[1]: ren}):
+            n += 1
+            v = p.value
+            items = list(v.items) if isinstance(v, SList) and v.kind == 'dict' and not v.opaque_tail else None
+            good = p.outcome == 'return' and not p.decisions and items is not None and len(items) == 4 and items[:3] == want[:3] and \
+                items[3][0] == 'meta' and isinstance(items[3][1], T) and items[3][1].op == 'new' and items[3][1].args[1][:1] == ('meta',) and \
+                gname(items[3][1].args[1][1]).split('.')[-1] == 'Metadata'
+            if good:
+                res.ok({'function': fi.fq, 'case': ren_label, 'columns': [k for k, _ in items]})
+            else:
+                res.fail(fi.fq, 'typedcols:columns', f'{ren_label}: a structure with the fields field_a: A, field_b: Optional[B], field_c: G[X], meta: dict must '
+                         f'get the columns {name_a} -> field_a: A, field_b -> field_b: B, field_c -> field_c: origin of G, meta -> meta: Metadata, in this order; '
+                         f'got `{show(v)[:300]}`' + (f' under {[show(t)[:40] for t, _ in p.decisions][:2]}' if p.decisions else ''), loc(fi))
+                break
+        if n == 0:
+            raise AnalysisError(f'{fi.fq}: no path on terms')
     return res
